@@ -328,63 +328,93 @@ def value_for(vt, n, s, b):
     return [lf] if "[" in vt else lf
 
 
-def is_f5(where, ai):
-    """known finding F5: a variable used inside a list/object literal is not checked against the position's type"""
-    return where != 0 or ai >= len(ARGS)
+def is_f5(nested, usage_allowed):
+    """known finding F5: a variable used inside a list/object literal is not checked against the type of its position;
+    the finding covers exactly the usages rule 5.8.5 forbids — allowed nested usages are still checked against the reference"""
+    return nested and not usage_allowed
 
 
-@obligation(tier="quick", timeout=240, shards=[{"ai": i} for i in range(len(ARGS) + 2)],
-            samples=[{"vi": 0, "where": 0, "n": 3, "s": "x", "b": True, "dflt": False}, {"vi": 5, "where": 1, "n": 3, "s": "boom", "b": False, "dflt": True}],
+from vf.ref.validation import allowed  # noqa: E402
+
+
+@obligation(tier="quick", timeout=300, shards=[{"ai": i} for i in range(len(ARGS) + 2)],
+            samples=[{"vi": 0, "where": 0, "n": 3, "s": "x", "b": True, "dflt": False, "vmode": 0}, {"vi": 5, "where": 1, "n": 3, "s": "boom", "b": False, "dflt": True, "vmode": 1}],
             symbolic=["n: int", "s: str", "b: bool"],
-            selectors=["vi: declared variable type (10)", "where: top level / inside a list literal / inside an object literal", "dflt: variable has a default", "shard: argument position"],
-            bounds="10 variable types x 10 positions x 3 nestings", findings=["F5"],
-            note="for every variable type x argument type pair: either the request is refused/that field fails, or the delivered value is a value of the declared argument type")
-def c05_vartype(vi: int, where: int, n: int, s: str, b: bool, dflt: bool) -> bool:
+            selectors=["vi: declared variable type (10)", "where: top level / inside a list literal / inside an object literal", "dflt: variable has a default",
+                       "vmode: value provided / explicit null / not provided", "shard: argument position"],
+            bounds="10 variable types x 10 positions x 3 nestings x 3 supply modes", findings=["F5"],
+            note="variable type x position type: a usage rule 5.8.5 forbids is refused (or nothing ill-typed is delivered); an allowed usage delivers exactly the reference value, "
+                 "and a null/missing variable at a non-null position (top level or nested) fails that field only")
+def c05_vartype(vi: int, where: int, n: int, s: str, b: bool, dflt: bool, vmode: int) -> bool:
     """
     post: _
     """
     ai = shard()["ai"]
-    vi = pick(vi, len(VARTYPES)); where = pick(where, 3); dflt = pickb(dflt)
+    vi = pick(vi, len(VARTYPES)); where = pick(where, 3); dflt = pickb(dflt); vmode = pick(vmode, 3)
     vt = VARTYPES[vi]
-    if finding_open("F5") and is_f5(where, ai):
-        return True
     with NoTracing():
         dtxt = ""
+        base_ = vt.replace("!", "").replace("[", "").replace("]", "")
         if dflt and not vt.endswith("!"):
-            dtxt = " = null"
+            dv = {"Int": "7", "String": "\"dv\"", "Boolean": "true", "ID": "\"di\""}[base_]
+            dtxt = " = " + ("[" + dv + "]" if "[" in vt else dv)
+        else:
+            dflt = False
         if ai < len(ARGS):
             f, at = ARGS[ai]
             if where == 0:
-                q = "query Q($v: %s%s) { %s(x: $v) sib }" % (vt, dtxt, f); target = at; proj = lambda a: a.get("x", ABSENT)
+                q = "query Q($v: %s%s) { %s(x: $v) sib }" % (vt, dtxt, f); pos_t = at
             elif where == 1:
                 if not at.startswith("["):
                     return True
-                q = "query Q($v: %s%s) { %s(x: [$v]) sib }" % (vt, dtxt, f); target = at; proj = lambda a: a.get("x", ABSENT)
+                q = "query Q($v: %s%s) { %s(x: [$v]) sib }" % (vt, dtxt, f)
+                pos_t = at[1:-2] if at.endswith("!") else at[1:-1]
             else:
                 return True
+            nested = where != 0
         else:
             inner, it = OBJ_INNER[ai - len(ARGS)]
-            f = "p_o"
+            f = "p_o"; nested = True; pos_t = it
             if where == 0:
                 q = "query Q($v: %s%s) { p_o(x: {x: 1, %s: $v}) sib }" % (vt, dtxt, inner) if inner != "x" else "query Q($v: %s%s) { p_o(x: {x: $v}) sib }" % (vt, dtxt)
             elif where == 1:
                 if inner != "y":
                     return True
-                q = "query Q($v: %s%s) { p_o(x: {x: 1, y: [$v]}) sib }" % (vt, dtxt)
+                q = "query Q($v: %s%s) { p_o(x: {x: 1, y: [$v]}) sib }" % (vt, dtxt); pos_t = "Int"
             else:
                 q = "query Q($v: %s%s) { p_o(x: {x: 1, inner: {x: 2, %s: $v}}) sib }" % (vt, dtxt, inner) if inner != "x" else "query Q($v: %s%s) { p_o(x: {x: 1, inner: {x: $v}}) sib }" % (vt, dtxt)
-            target = "Inp"; proj = lambda a: a.get("x", ABSENT)
         ast = gqlfront.parse(q)
-        tref = _parse_t(target)
-    val = value_for(vt, n, s, b)
-    ok, r, log, dlog = run_ast(q, ast, {"v": val})
-    observe(q, r, log)
+        usage_ok = allowed(vt, pos_t, dflt, False)
+    if finding_open("F5") and is_f5(nested, usage_ok):
+        return True
+    variables = {}
+    if vmode == 0:
+        variables["v"] = value_for(vt, n, s, b)
+    elif vmode == 1:
+        variables["v"] = None
+    ok, r, log, dlog = run_ast(q, ast, dict(variables))
+    observe(q, variables, r, log)
     if not ok:
         return verdict(False)
     got = [a for name, a in log if name == f]
-    if not got:
-        return verdict(True)          # refused, or that field failed: nothing delivered
-    d = proj(got[0])
-    if d is ABSENT:
-        return verdict(True)
-    return verdict(C.is_value_of_type(MODEL, tref, d))
+    if not usage_ok:
+        # the document is invalid: refused, nothing runs
+        return verdict(r.get("data") is None and bool(r.get("errors")) and not log)
+    # allowed usage: the reference decides
+    op = ast["definitions"][0]
+    vardefs = [(vd["variable"]["name"]["value"], tref_of(vd["type"]), vd["defaultValue"]) for vd in op["variableDefinitions"]]
+    try:
+        cv = C.coerce_variables(MODEL, vardefs, variables)
+    except C.Bad:
+        return verdict(r.get("data") is None and bool(r.get("errors")) and not log)
+    fdef = MODEL["types"]["Query"]["fields"][f]
+    argnodes = op["selectionSet"]["selections"][0]["arguments"]
+    try:
+        exp = C.coerce_arguments(MODEL, fdef["args"], argnodes, cv)
+    except C.Bad:
+        exp = None
+    observe(("expected", exp))
+    if exp is None:
+        # that field only fails: not called, error reported, sibling resolved
+        return verdict(not got and bool(r.get("errors")) and r.get("data") is not None and r["data"].get(f) is None and any(name == "sib" for name, _ in log))
+    return verdict(len(got) == 1 and eqv(got[0], exp) and not r.get("errors"))
